@@ -2201,3 +2201,10 @@ m("C13", "macro-registered-without-on-error", ZP,
 m("C13", "macro-reference-wrapped-again", ZP,
   "            slot = nodes.UseInternalMacro(clause)\n            ON_ERROR = skip\n",
   "            slot = nodes.UseInternalMacro(clause)\n")
+
+m("C03", "unterminated-end-tag-loses-blanks", "parser.py",
+  '''    if d['suffix'] is None:
+        # Not terminated: what follows the name is kept as it is.
+        d['suffix'] = token
+
+''', "")
